@@ -36,6 +36,7 @@ type c13Case struct {
 	Chunk  int         `json:"disk_chunk"`
 	Delay  int         `json:"delay"`
 	Stmt   bool        `json:"stmt_yields,omitempty"`
+	IOQ    int         `json:"io_quirks,omitempty"` // bit 0: final bytes arrive with io.EOF; bit 1: Read sometimes returns (0, nil)
 }
 
 type c13 struct{}
@@ -68,6 +69,12 @@ func recOfSize(total, idx int, nrefs int) RecSpec {
 }
 
 func (c13) Gen(t *Tape, tier string, run int) interface{} {
+	c := c13{}.gen0(t, tier, run)
+	c.IOQ = t.Pick("work", 0, 0, 1, 2, 3)
+	return c
+}
+
+func (c13) gen0(t *Tape, tier string, run int) *c13Case {
 	c := &c13Case{RD: t.Pick("work", 0, 1, 2, 2, 4), Procs: t.Pick("work", 1, 2, 4), Chunk: t.Pick("work", 0, 0, 2), Delay: t.Pick("work", 0, 0, 1)}
 	c.Stmt = t.Chance("work", 1, 4)
 	switch k := t.Draw("work", 10); {
@@ -272,7 +279,7 @@ func (p c13) Exec(x *Exec, ci interface{}) *Verdict {
 			}
 		}
 	}
-	f2 := &File{X: x, Name: "f", Data: img, Chunk: c.Chunk, MaxDelay: c.Delay}
+	f2 := &File{X: x, Name: "f", Data: img, Chunk: c.Chunk, MaxDelay: c.Delay, EOFWithData: c.IOQ&1 != 0, ZeroReads: c.IOQ&2 != 0}
 	res = x.RunSim("pass2", (estReadSteps(len(img), c.Chunk, "read+seek", c.Delay)+60*len(c.Recs))*(1+len(c.Chunks)), func() {
 		br, err := bam.NewReader(f2.As("read+seek"), c.RD)
 		if err != nil {
@@ -422,7 +429,7 @@ func (c13) execBytes(x *Exec, c *c13Case) *Verdict {
 		}
 	}
 	var bad *Violation
-	file := &File{X: x, Name: "f", Data: img, Chunk: c.Chunk, MaxDelay: c.Delay}
+	file := &File{X: x, Name: "f", Data: img, Chunk: c.Chunk, MaxDelay: c.Delay, EOFWithData: c.IOQ&1 != 0, ZeroReads: c.IOQ&2 != 0}
 	res := x.RunSim("chunkreader", estReadSteps(len(img), c.Chunk, "read+seek", c.Delay)*(2+len(c.Chunks))+len(want)*4, func() {
 		r, err := bgzf.NewReader(file.As("read+seek"), c.RD)
 		if err != nil {
@@ -557,9 +564,9 @@ func (c13) Shrinks(ci interface{}) []interface{} {
 		n.RD = 1
 		out = append(out, &n)
 	}
-	if c.Chunk != 0 || c.Delay != 0 {
+	if c.Chunk != 0 || c.Delay != 0 || c.IOQ != 0 {
 		n := *c
-		n.Chunk, n.Delay = 0, 0
+		n.Chunk, n.Delay, n.IOQ = 0, 0, 0
 		out = append(out, &n)
 	}
 	return out
